@@ -270,3 +270,61 @@ def check_dust(V, F, samples, c, ch, feerate, hs, step, what):
     if loc > c["max_dust"]:
         V.append({"key": "f:dust-exposure-holder", "judge": "f:dust-exposure",
                   "why": "%s on channel %s: HTLCs without an output on B's OWN commitment (dust-buffer feerate %d) total %d msat > max_dust_htlc_exposure %d msat; HTLCs (outbound,msat): %s" % (what, ch, dust_buffer_feerate(feerate), loc, c["max_dust"], hs), "step": step})
+
+
+MIN_CLTV_EXPIRY_DELTA = 48
+ANTI_REORG_DELAY = 6
+
+
+def onchain_dust_band(feerate, dust_limit_sat=354):
+    """[lo, hi) msat: an HTLC B offers in this band has an output on C's commitment's... no: on exactly one of
+    the two commitments of a non-anchor channel (timeout weight 663 on B's, success weight 703 on C's)."""
+    return (dust_limit_sat + feerate * 663 // 1000) * 1000, (dust_limit_sat + feerate * 703 // 1000) * 1000
+
+
+def judge_scripted(recs):
+    """Judges for the scripted families of h_fwdm (ICPT, ONCH, SPLICE records). Returns (violations, facts)."""
+    V, F = [], {"icpt": 0, "icpt_forwarded": 0, "icpt_refused": 0, "onch": 0, "onch_failed_back": 0, "onch_one_sided_dust": 0, "splice": 0}
+    for (_, step, kind, kv) in recs:
+        if kind == "PANIC":
+            V.append({"key": "harness", "judge": "harness/implementation panic", "why": (kv.get("msg", "?") + " " + str(kv))[:400], "step": 0})
+        elif kind == "ICPT":
+            F["icpt"] += 1
+            in_amt, in_cltv = int(kv["in_amt"]), int(kv["in_cltv"])
+            if kv["forwarded"] == "1":
+                F["icpt_forwarded"] += 1
+                out_amt, out_cltv = int(kv["out_amt"]), int(kv["out_cltv"])
+                policy = kv["kind"] in ("2", "3", "4")      # a real channel: its advertised fee and delta apply
+                fee = int(kv["base"]) + out_amt * int(kv["prop"]) // M if policy else 0
+                delta = int(kv["delta"]) if policy else MIN_CLTV_EXPIRY_DELTA
+                what = {"0": "an intercept SCID", "1": "an unknown SCID", "2": "a known public channel (intercepted)",
+                        "3": "a connected private channel (intercepted)", "4": "a disconnected private channel (intercepted)"}[kv["kind"]]
+                if out_amt + fee > in_amt:
+                    V.append({"key": "a:fee-cltv-intercept", "judge": "a:fee-cltv",
+                              "why": "forward to %s: B received %d msat, reported expected_outbound_amount_msat %s and offered %d msat downstream (fee due %d): %d msat more than it got" % (what, in_amt, kv["expected_out"], out_amt, fee, out_amt + fee - in_amt), "step": 0, "case": kv})
+                if out_cltv + delta > in_cltv:
+                    V.append({"key": "a:fee-cltv-intercept", "judge": "a:fee-cltv",
+                              "why": "forward to %s: B received expiry %d and offered expiry %d downstream: less than %d blocks apart" % (what, in_cltv, out_cltv, delta), "step": 0, "case": kv})
+            else:
+                F["icpt_refused"] += 1
+        elif kind == "ONCH":
+            F["onch"] += 1
+            amt = int(kv["amt"])
+            outs = [int(x) for x in kv["outs"].split("/") if x]
+            live = (amt // 1000) in outs          # from the CONFIRMED transaction itself
+            d = int(kv["failed_at_depth"])
+            lo, hi = onchain_dust_band(int(kv.get("feerate", "253")))
+            if lo <= amt < hi:
+                F["onch_one_sided_dust"] += 1
+            if d >= 0:
+                F["onch_failed_back"] += 1
+                wh = {"0": "B's current commitment", "1": "B's PREVIOUS commitment", "2": "C's commitment"}[kv["which"]]
+                if live:
+                    V.append({"key": "d:fail-only-when-safe-onchain", "judge": "d:fail-only-when-safe",
+                              "why": "%s confirmed with a live %d sat output for the forwarded HTLC (outputs %s); B released update_fail_htlc upstream %d blocks later (restart at depth %s, stale manager %s) although C can still claim that output and no timeout spend exists" % (wh, amt // 1000, kv["outs"], d, kv["restart_depth"], kv["stale_mgr"]), "step": 0, "case": kv})
+                elif d < ANTI_REORG_DELAY - 1:
+                    V.append({"key": "d:fail-only-when-safe-onchain", "judge": "d:fail-only-when-safe",
+                              "why": "%s confirmed without an output for the HTLC; B failed it back with only %d blocks on top" % (wh, d), "step": 0, "case": kv})
+        elif kind == "SPLICE":
+            F["splice"] += 1
+    return V, F
